@@ -205,10 +205,18 @@ def run(pid, tier):
     assume = ["an action is 'expressible in both spaces' when its parameter vector decodes back to the same action (exploits / escalations "
               "sharing a (service|process, OS) pair with an earlier definition are flat-only and compared among flat modes only)",
               "'every seed' is represented by scripted draws on both sides of every probability plus the real seeds 0,1,2"]
-    return finish(pid, tier, cov, [v for v in violations if v["property"] == "C12"], assume, t0)
+    # API programs driven with parameter vectors (one array object per action, reused) vs the same programs with flat
+    # indices (mc/apiseq.py): a program that matches the state graph in flat mode must match it in parameterised mode
+    from . import apiseq
+    api_cov, api_viol = apiseq.check_part("C12", tier)
+    cov["api_sequence_exploration"] = api_cov
+    return finish(pid, tier, cov, [v for v in violations if v["property"] == "C12"] + api_viol, assume, t0)
 
 
 def replay(pid, rec):
+    if rec.get("engine") == "apiseq":
+        from . import apiseq
+        return apiseq.replay(rec)
     from .sweep import make_ctx
     from .explore import explore
     from .spec import spec_from_json
